@@ -151,6 +151,24 @@ func init() {
 	}
 }
 
+// rejected texts whose only new node is a variable (the error sits directly behind a variable that
+// the preloaded rules do not use): always loaded into the preloaded knowledge base
+func init() {
+	for _, d := range []string{
+		`rule Z "z" { when F.Zz`, `rule Z "z" { when F.Zz @ 1 then F.A = 1; }`, `rule Z "z" { when F.Zz.Zy ) then F.A = 1; }`,
+		`rule Z "z" { when true then F.Zq`, `rule Z "z" { when true then F.Zq = ; }`, `rule Z "z" { when true then F.Zq @`,
+		`rule Z "z" { when true then F.Arr[F.Zi`, `rule Z "z" { when G.Zg`, `rule Z "z" { when true then G.Zh = `,
+		`rule Z "z" { when F.A > 0 then F.B = 1; } rule Y "y" { when F.Zk`, `rule Z "z" { when Zt`, `rule Z "z" { when true then Zu =`,
+		// no error recovery completes the enclosing atom here; everything else of the rule exists already
+		`rule Z "z" { when Zc.When == 1 then F.A = F.A + 1; }`, `rule Z "z" { when Zc. == 1 then F.A = F.A + 1; }`,
+		`rule Z "z" salience 2 { when Zc..Age > 18 then F.A = F.A + 1; }`, `rule Z "z" { when F.A < 3 && Zo.Rule > 1 then F.A = F.A + 1; }`,
+		`rule Z "z" { when F.A < 3 then F.A = F.A + 1; F.Zq = = 1; }`, `rule Z "z" { when F.A < 3 then F.Zq = * 2; }`,
+		`rule Z "z" { when F.When == 1 then F.A = F.A + 1; }`, `rule Fine "ok" { when F.A < 3 then F.A = F.A + 1; } rule Z "z" { when F.A < 3 && G.Then > 1 then F.A = F.A + 1; }`,
+	} {
+		c17Targeted = append(c17Targeted, "/* loaded after Pre1 */ "+d)
+	}
+}
+
 // texts without any rule, and valid rules whose parse trees are long or deep
 func init() {
 	c17Targeted = append(c17Targeted, "", " \n\t ", "// only a comment", "/* only a comment */\n", "// c\n/* d */ // e")
